@@ -149,6 +149,11 @@ type Harness interface {
 	Run(t *testing.T, c *Case) *Outcome
 }
 
+// Preparer is implemented by harnesses that build process-independent fixtures before a case runs.
+type Preparer interface {
+	Prepare(t *testing.T, c *Case)
+}
+
 type line struct {
 	T        string   `json:"t"`
 	Idx      int      `json:"idx"`
@@ -266,6 +271,15 @@ func runOne(t *testing.T, h Harness, c *Case, idx int, dir string) {
 			l.CaseFile = fn
 		}
 		emit(l)
+	}
+	if p, ok := h.(Preparer); ok {
+		// set-up shared by many cases (template directories) happens in a bubble of its own: what it does to the
+		// fake clock and to the scheduler must not depend on whether an earlier process has done it already
+		synctest.Test(t, func(t *testing.T) {
+			runtime.VerifSetSeed(1)
+			p.Prepare(t, c)
+			runtime.VerifSetSeed(0)
+		})
 	}
 	synctest.Test(t, func(t *testing.T) {
 		runtime.VerifSetSeed(c.Seed | 1)
